@@ -3951,8 +3951,8 @@ int           i ;
 int           file_bytes = 0 ;
 int           memory_bytes = 0 ;
 char          tag[TAG_SIZE+1] ;
-cgulong_t     total_bytes, disk_elem ;
-cglong_t      current_bytes, chunk_total_bytes ;
+cgulong_t     disk_elem ;
+cglong_t      total_bytes, current_bytes, chunk_total_bytes ;
 double        LID ;
 cgulong_t     relative_offset, current_chunk, current_chunk_size,
               past_chunk_sizes ;
